@@ -154,6 +154,7 @@ def cases(tier, seed):
     out.append({"k": "polyargs", "i": -1})
     out.append({"k": "three"})
     out.append({"k": "twins"})
+    out.append({"k": "magnitudes"})
     out.sort(key=lambda c: {"polyargs": 0, "pairs": 1, "arrays": 2}.get(c["k"], 3))
     return out
 
@@ -201,6 +202,10 @@ def run_case(case, R):
                            ("p(a)(q1=b)", lambda: stage(p(a), q1=b)), ("p(q1=b)(q0=a)", lambda: stage(p(q1=b), q0=a)),
                            ("p(a,None)(None,b)", lambda: stage(p(a, None), None, b)), ("numpoly.call", lambda: numpoly.call(p, (a,), {"q1": b}))):
                 judge_numeric(R, f"{u[case['i']]}: {lab} a={a!r} b={b!r}", f, full, (), tg + ["form=" + lab])
+            kw = {"q1": b}
+            judge_numeric(R, f"{u[case['i']]}: numpoly.call(p,(a,),kw) a={a!r} b={b!r}", lambda: numpoly.call(p, (a,), kw), full, (), tg + ["form=call-function"])
+            judge_poly(R, f"{u[case['i']]}: numpoly.call(p,(),kw) with the same dict", lambda: numpoly.call(p, (), kw), m.subs({"q1": B}), tg + ["form=call-function", "partial"])
+            judge_numeric(R, f"{u[case['i']]}: numpoly.call(p,(a,),kw) with the same dict again", lambda: numpoly.call(p, (a,), kw), full, (), tg + ["form=call-function"])
             for lab, f, e in (("p(a)", lambda: p(a), m.subs({"q0": A})), ("p(None,b)", lambda: p(None, b), m.subs({"q1": B})),
                               ("p(q1=b)", lambda: p(q1=b), m.subs({"q1": B})), ("p(a,None)", lambda: p(a, None), m.subs({"q0": A})),
                               ("p()", lambda: p(), m), ("p(None,None)", lambda: p(None, None), m)):
@@ -276,6 +281,34 @@ def run_case(case, R):
                 except ValueError:
                     continue
                 judge_poly(R, f"tagged{shape}({la}, {lb})", lambda: p(a, b), exp, ["polyargs", "array_poly"])
+    elif k == "magnitudes":
+        # partial / staged / polynomial-valued evaluation of polynomials with very small and very large coefficients:
+        # the indeterminates that were not supplied must survive (values compared with a relative tolerance)
+        for i, sp in enumerate(space.magnitude_specs()):
+            p, m = build_checked(sp), model_of(sp)
+            R.state(("magnitudes", i))
+            for lab, f, assign in (("p(q0=2)", lambda: p(q0=2), {"q0": V.const(2)}), ("p(None, 3)", lambda: p(None, 3), {"q1": V.const(3)}),
+                                   ("p(q1, q0)", lambda: p(numpoly.symbols("q1"), numpoly.symbols("q0")), {"q0": V.var("q1"), "q1": V.var("q0")}),
+                                   ("p(q0=q1+1)", lambda: p(q0=numpoly.symbols("q1") + 1), {"q0": V.var("q1") + 1}),
+                                   ("p(4)", lambda: p(4), {"q0": V.const(4)})):
+                R.tr()
+                exp = m.subs(assign)
+                try:
+                    got = f()
+                except Exception as err:  # noqa: BLE001
+                    R.fail("call", "exception", f"magnitudes {sp['t']} {lab}: {type(err).__name__}: {err}", tags=["magnitudes"])
+                    continue
+                if isinstance(got, numpoly.ndpoly):
+                    a = alpha(got)
+                elif exp.isconstant():
+                    a = V.const(numpy.asarray(got))
+                else:
+                    R.fail("call", "wrong-value", f"magnitudes {sp['t']} {lab}: plain {type(got).__name__} {got!r} returned but indeterminates remain: {exp!r}", tags=["magnitudes"])
+                    continue
+                if a.shape != exp.shape or set(a.t) != set(exp.t) or not a.close(exp, rtol=1e-12, atol=0.0):
+                    R.fail("call", "wrong-value", f"magnitudes {sp['t']} {lab}: {a!r} != {exp!r}", tags=["magnitudes"])
+                else:
+                    R.outcome(("magnitudes", i, lab))
     elif k == "twins":
         for i, sp in enumerate(space.twin_sequence()):
             p, m = build_checked(sp), model_of(sp)
